@@ -99,7 +99,8 @@ def _mk_interp(ix, log, extra_stubs=None):
         "xml.etree.ElementTree.Element": element, "ElementTree.Element": element,
         "XmlElem.set": el_set, "XmlElem.append": el_append,
         "_escape_invalid_xml_chars": sanitize,
-        "text": keep, "behave.textutil.text": keep,
+        "text": lambda it, st, a, k, n: [(st, "val", "None" if (a and a[0] is None) else (a[0] if a else None))],
+        "behave.textutil.text": lambda it, st, a, k, n: [(st, "val", "None" if (a and a[0] is None) else (a[0] if a else None))],
         "behave.formatter.ansi_escapes.strip_escapes": keep, "strip_escapes": keep,
         "indent": keep, "make_indentation": lambda it, st, a, k, n: [(st, "val", "  ")],
         "traceback.format_tb": lambda it, st, a, k, n: [(st, "val", st.alloc(HObj("list", kind="list", items=[])))],
@@ -430,3 +431,41 @@ def check_illegal_char_table(chk, ix):
     else:
         chk.fail(Finding("J7", f.fullname, "pattern not used", "_escape_invalid_xml_chars does not apply the pattern compiled from the table",
                          file=f.file, line=f.lineno))
+
+
+def check_problem_description_names_step(chk, ix):
+    """J3 (third part): the failure/error entry names the responsible step whatever kind of problem the step has - a step
+    with a stored exception (assertion, error) and a step without one (undefined step)."""
+    chk.rule("J3", WHAT["J3"])
+    rc = ix.cls("behave.reporter.junit:JUnitReporter")
+    f = rc.lookup("_make_problem_description_for")
+    if f is None:
+        raise AnalysisError("anchor missing: JUnitReporter._make_problem_description_for")
+    for kind in ("with exception", "without exception (undefined step)"):
+        log, cdata = [], []
+        st = State()
+        st.frames = []
+        it = _mk_interp(ix, log, {"JUnitReporter.describe_step": lambda i, s_, a, k, n: [(s_, "val", "STEP-DESCRIPTION\n")],
+                                  "CDATA": lambda i, s_, a, k, n: (cdata.append(a[0] if a else None), [(s_, "val", s_.alloc(HObj("XmlElem", {"tag": "![CDATA[", "children": s_.alloc(HObj("list", kind="list", items=[])), "text": a[0] if a else None})))])[1]})
+        stc = ix.cls("behave.model:Step")
+        exc = st.alloc(HObj("ExcTok", {}, open=True, label="exception")) if kind == "with exception" else None
+        step = st.alloc(HObj(stc, {"status": S("failed" if exc is not None else "undefined"), "name": "the step", "keyword": "Given", "duration": 0.0,
+                                   "text": None, "table": None, "location": "f.feature:7", "hook_failed": False, "exception": exc,
+                                   "error_message": "step error message" if exc is not None else None}, label="culprit step"))
+        scen, own, bgt = _scenario_token(ix, st, "failed", [("s1", "failed")], [])
+        rc_, rep, report = _reporter(ix, st, True, False)
+        outs = it.call_function(st, f, ["failure", scen, step], {}, None, self_val=rep)
+        chk.absorb(it)
+        chk.instance("J3")
+        bad = [o for o in outs if o[1] != "val"]
+        outs = [o for o in outs if o[1] == "val"]
+        if not outs:
+            raise AnalysisError("_make_problem_description_for not evaluable (%s): %r" % (kind, [(k, v) for _, k, v in bad][:2]))
+        texts = [t for t in cdata if t is not None]
+        named = bool(texts) and all(("STEP-DESCRIPTION" in t if isinstance(t, str) else any("STEP" in str(x) for x in [t])) for t in texts)
+        if named:
+            chk.ok("J3", {"culprit step": kind, "entry text mentions": "the step's description and location"}, nontrivial_key=("describe", kind))
+        else:
+            chk.fail(Finding("J3", f.fullname, "step %s: entry text %r" % (kind, texts[:1]),
+                             "the failure/error entry for a culprit step %s has the text %r: it does not name the step (its description and "
+                             "location), so the report does not say which step is responsible" % (kind, texts[:1]), file=f.file, line=f.lineno))
